@@ -9,7 +9,9 @@ package coresim
 // REVIVEs the offers), and waits until the simulated master has the core's answer to every offer of
 // the next OFFERS event (a DECLINE, or an ACCEPT that launches something; an offer answered by an
 // ACCEPT without operations only is given 250 ms for its DECLINE - such an offer counts as declined for
-// the property either way, the wait only matters for conformance) - or until the core process is gone.
+// the property either way, the wait only matters for conformance), or until the core REVIVEs the offers
+// again (the retry of an incomplete deployment follows the handler's return: whatever offer is unanswered
+// then stays unanswered) - or until the core process is gone.
 // It records
 //     C05Round{k, complete, alive, panic}
 // (panic = the Go panic message found in the core's log with the first frame inside core/task).
@@ -106,9 +108,10 @@ func c05OneDeployment(r *Runner, cl pb.ControlClient, cctx context.Context, st *
 	var mu sync.Mutex
 	pending := map[string]bool{}    // offers without a DECLINE or a launching ACCEPT
 	unanswered := map[string]bool{} // offers without any call at all
-	seenOffers, closed, closedA := false, false, false
+	seenOffers, closed, closedA, closedR := false, false, false, false
 	done := make(chan struct{})
 	answered := make(chan struct{})
+	retried := make(chan struct{}) // the core asks for offers again: the handler of the first round has returned
 	saved := r.Master.Rec
 	r.Master.Rec = func(ev string, kv ...interface{}) {
 		get := func(key string) interface{} {
@@ -121,7 +124,8 @@ func c05OneDeployment(r *Runner, cl pb.ControlClient, cctx context.Context, st *
 		}
 		if ev == "MAccept" {
 			// which task role a launched task belongs to: the scenario's templates export it as C05_ROLE
-			// (several roles may load the same task class); added to the master's record as "tag"
+			// (several roles may load the same task class); added to the master's record as "tag", next to
+			// "control": the control port the launch data hands to the task
 			if tasks, ok := get("tasks").([]map[string]interface{}); ok {
 				for _, x := range tasks {
 					if t := r.Master.Task(fmt.Sprint(x["task"])); t != nil {
@@ -129,6 +133,10 @@ func c05OneDeployment(r *Runner, cl pb.ControlClient, cctx context.Context, st *
 							if strings.HasPrefix(e, "C05_ROLE=") {
 								x["tag"] = strings.TrimPrefix(e, "C05_ROLE=")
 							}
+						}
+						// the control port handed to a controllable task (TaskInfo.Data), 0 = none
+						if t.Cmd.ControlPort != 0 {
+							x["control"] = t.Cmd.ControlPort
 						}
 					}
 				}
@@ -138,6 +146,13 @@ func c05OneDeployment(r *Runner, cl pb.ControlClient, cctx context.Context, st *
 		mu.Lock()
 		defer mu.Unlock()
 		switch ev {
+		case "MRevive":
+			// a REVIVE after the round's offers is the retry of a deployment that did not place everything: it follows
+			// the handler's return (acquireTasks waits for the round's outcome), so nothing more will come for this round
+			if seenOffers && !closedR {
+				closedR = true
+				close(retried)
+			}
 		case "MOffers":
 			if !seenOffers {
 				seenOffers = true
@@ -190,6 +205,9 @@ func c05OneDeployment(r *Runner, cl pb.ControlClient, cctx context.Context, st *
 		case <-r.child.done:
 		case <-time.After(250 * time.Millisecond):
 		}
+		complete = true
+	case <-retried:
+		// the handler has returned with some offer neither declined nor accepted: the round is over as it stands
 		complete = true
 	case <-r.child.done:
 	case <-time.After(timeout):
